@@ -640,9 +640,10 @@ primaryexpr(struct scope *s)
 {
 	struct expr *e;
 	struct decl *d;
-	struct type *t;
+	struct type *t, *c;
 	char *src, *end;
 	uint_least32_t chr;
+	unsigned long long i;
 	int base;
 
 	switch (tok.kind) {
@@ -668,15 +669,19 @@ primaryexpr(struct scope *s)
 	case TCHARCONST:
 		src = tok.lit;
 		switch (*src) {
-		case 'L': ++src; t = targ->typewchar; break;
-		case 'u': ++src; t = *src == '8' ? ++src, &typeuchar : &typeushort; break;
-		case 'U': ++src; t = &typeuint; break;
-		default: t = &typeint;
+		case 'L': ++src; c = t = targ->typewchar; break;
+		case 'u': ++src; c = t = *src == '8' ? ++src, &typeuchar : &typeushort; break;
+		case 'U': ++src; c = t = &typeuint; break;
+		default: t = &typeint; c = &typechar;
 		}
 		assert(*src == '\'');
 		++src;
 		src += decodechar(src, &chr, NULL, "character constant", &tok.loc);
-		e = mkconstexpr(t, chr);
+		/* the value is that of an object of the character type (char for a plain constant) */
+		i = chr;
+		if (c->u.basic.issigned && i >> c->size * 8 - 1 == 1)
+			i |= -1ull << c->size * 8;
+		e = mkconstexpr(t, i);
 		if (*src != '\'')
 			error(&tok.loc, "character constant contains more than one character: %c", *src);
 		next();
